@@ -133,6 +133,10 @@ def handle (st : DState) (line : String) : DState × String :=
     match lookup st.progs pid, Util.parseNat ver with
     | some sp, some v => (st, Cmd.C02Gen.answer sp v (fp == "1"))
     | _, _ => (st, "perr unknown id")
+  | ["composed", pid, tid, ver, fp] =>
+    match lookup st.progs pid, lookup st.teals tid, Util.parseNat ver with
+    | some sp, some tp, some v => (st, Cmd.C02Gen.composedAnswer sp tp v (fp == "1"))
+    | _, _, _ => (st, "perr unknown id")
   | ["genclass", pid, ver] =>
     match lookup st.progs pid, Util.parseNat ver with
     | some sp, some v =>
